@@ -352,28 +352,46 @@ class Engine:
         self._learn(self._fold(t)[1], True)
 
     def concretise(self, term, limit=256):
-        """fork over every feasible value of an Int term under the path condition."""
+        """fork over every feasible value of an Int term under the path condition.
+
+        The feasible values are enumerated first (blocking clauses, no forking); more than
+        `limit` of them raise Unsupported at once instead of after `limit` explored paths."""
         Z = self.Z
         if self.eval_model is not None:
             return self.eval_model.eval(term, model_completion=True).as_long()
         if Z.is_int_value(term):
             return term.as_long()
-        n = 0
-        while True:
-            node = self.node
-            if node.kids is not None and node.cterm is not None and node.cterm.eq(term):
-                v = node.cval          # re-execution: same candidate as the first time
-            else:
-                m = self.model()
-                v = m.eval(term, model_completion=True).as_long()
-                if node.kids is None:
-                    node.cterm, node.cval = term, v
-            self.stats.forks_concretise += 1
+        node = self.node
+        if node.kids is not None and node.cterm is not None and node.cterm.eq(term):
+            vals = node.cval                  # re-execution: same candidates as the first time
+        else:
+            vals = []
+            self.solver.push()
+            try:
+                while len(vals) <= limit:
+                    r = self._check()
+                    if r == "unknown":
+                        raise Inconclusive("concretisation: solver unknown")
+                    if r != "sat":
+                        break
+                    v = self.solver.model().eval(term, model_completion=True).as_long()
+                    vals.append(v)
+                    self.solver.add(term != v)
+            finally:
+                self.solver.pop()
+            if len(vals) > limit:
+                raise Unsupported("more than %d feasible values in concretisation" % limit)
+            if not vals:
+                raise PathAbort()
+            vals.sort()
+            if node.kids is None:
+                node.cterm, node.cval = term, vals
+        self.stats.forks_concretise += len(vals)
+        for v in vals[:-1]:
             if self.decide(term == v):
                 return v
-            n += 1
-            if n > limit:
-                raise Unsupported("more than %d feasible values in concretisation" % limit)
+        self.assume(term == vals[-1])
+        return vals[-1]
 
     def prove(self, t):
         """is (pc -> t) valid?  returns 'unsat' (proved), ('sat', model) or 'unknown'"""
